@@ -1637,6 +1637,9 @@ def _fix_case(case):
 
 
 def run_case(ctx, case):
+    if case.get('kind') in ('api', 'registry', 'fill'):
+        from props import c12_ext
+        return c12_ext.run_case(ctx, case)
     if case.get('kind') == 'unpack':
         return run_unpack(ctx, case)
     if case.get('kind') == 'builtin':
@@ -1727,6 +1730,8 @@ def run(ctx):
         ctx.note_case(('concat', json.dumps([cs, ops], sort_keys=True, default=str)), nontrivial=nt,
                       sample=dict(kind='concat', parts=len(cs), ops=[o[:2] for o in ops]))
         ctx.count('concat_parts=%d' % len(cs))
+    from props import c12_ext
+    c12_ext.run(ctx)
     if ctx.tier == 'thorough':
         cross_check_in_coq(ctx)
 
@@ -1760,6 +1765,7 @@ def replay(ctx, doc):
     import logging
     logging.getLogger('katdal').setLevel(logging.ERROR)
     case = doc.get('case') or doc.get('witness') or {}
-    if case.get('kind') in ('single', 'wild', 'concat', 'primitive', 'unpack', 'props', 'builtin', 'dataset'):
+    if case.get('kind') in ('single', 'wild', 'concat', 'primitive', 'unpack', 'props', 'builtin', 'dataset', 'api', 'registry',
+                            'fill'):
         run_case(ctx, case)
         ctx.note_case(('replay', json.dumps(case, sort_keys=True, default=str)))
